@@ -1907,7 +1907,7 @@ INFO = {
 }
 for _v in INFO.values():
     _v['rule'] += (
-        '; swarm dimensions (see probes): handler hierarchies with overrides, mixins, two handler bases (while K5 is not listed), classes decorated again / callbacks rebound after use, partialmethod callbacks, handlers with value equality or no hash, callback return values, keyword arguments with internal-looking names, guarded nested releases, backlogs > 4096 and > 65536, program finalizers that dispatch at the death of a listener, address reuse after death, Enum members as event names, unhashable and all-equal callable objects as callbacks, backlogs of 257-420 events, callbacks that disable and dispatch / clear and start over, BaseException faults, the dispatcher dropped with all its handlers (teardown), builtin exception types as faults (IndexError, KeyError, StopIteration ...), chains of up to 430 re-entrant dispatches, handler types without weak reference support')
+        '; swarm dimensions (see probes): handler hierarchies with overrides, mixins, two handler bases (while K5 is not listed), classes decorated again / callbacks rebound after use, partialmethod callbacks, handlers with value equality or no hash, callback return values, keyword arguments with internal-looking names, guarded nested releases, backlogs > 4096 and > 65536, program finalizers that dispatch at the death of a listener, address reuse after death, Enum members as event names, unhashable and all-equal callable objects as callbacks, backlogs of 257-420 events, callbacks that disable and dispatch / clear and start over, BaseException faults, the dispatcher dropped with all its handlers (teardown), builtin exception types as faults (IndexError, KeyError, StopIteration ...), chains of up to 430 re-entrant dispatches, handler types without weak reference support, callbacks rebound while registered followed by re-registration, one decorator object shared by several classes, tuple event names, postponed events without arguments, listeners dropped after their exception escaped')
 PROBES = {
     'C03': ['double_registration', 'remove_unregistered',
             'reentrant_dispatch', 'remove_mid_dispatch',
